@@ -40,7 +40,7 @@ PREFIXES = ("leaf", "materialization", "x", "leaf_0001")
 
 
 def budget(tier):
-    return 400 if tier == "quick" else 6000
+    return 800 if tier == "quick" else 6000
 
 
 @st.composite
@@ -186,11 +186,14 @@ def request(engine, kind, what, prefix):
 
 def check_names(names, driver, ctx):
     seen = {}
+    nd = driver == "free-running"
     for tid, prefix, name in names:
         if not isinstance(name, str) or not name.startswith(prefix + "_"):
-            raise Violation("prefix-missing", f"[{driver}] name {name!r} does not start with the requested prefix {prefix!r}; {ctx}", driver=driver)
+            raise Violation("prefix-missing", f"[{driver}] name {name!r} does not start with the requested prefix {prefix!r}; {ctx}", driver=driver, nondeterministic=nd)
         if name in seen:
-            raise Violation("duplicate-name", f"[{driver}] name {name!r} handed out twice (threads {seen[name]} and {tid}); {ctx}", driver=driver)
+            raise Violation(
+                "duplicate-name", f"[{driver}] name {name!r} handed out twice (threads {seen[name]} and {tid}); {ctx}", driver=driver, nondeterministic=nd
+            )
         seen[name] = tid
 
 
